@@ -301,7 +301,10 @@ class Kernel:
                 raw = msg[9:25]
                 data = bytes(msg[29:])
                 s = p.socks.get(fd)
-                if s is None or fam not in (AF_INET, AF_INET6):
+                if s is None or fam not in (AF_INET, AF_INET6) or fam != s.family:
+                    # Linux: EAFNOSUPPORT when the address family does not match the socket's
+                    if s is not None:
+                        self.emit("send_error", p.name, fd=fd, family=fam, errno=97, n=len(data), cause=p.cause)
                     self._reply(p, struct.pack("<i", -97 if s else -9))
                     continue
                 dst = (ip_unpack(fam, raw), port)
@@ -417,6 +420,17 @@ class Kernel:
         self.dgram_id += 1
         did = self.dgram_id
         ip, port = dst
+        # a socket explicitly bound to this address and port wins (e.g. iodined's forwarding socket on
+        # 127.0.0.1:<ephemeral> next to a scripted resolver on 127.0.0.1:<bind port>)
+        for bp in self.procs.values():
+            if not bp.alive():
+                continue
+            for s in bp.socks.values():
+                if s.bound_ip == ip and s.port == port:
+                    s.queue.append((did, src, dst, data))
+                    self.emit("deliver", bp.name, id=did, src=src, dst=dst, data=data, fd=s.fd)
+                    self._poke(bp)
+                    return
         actor = self.actors.get(ip)
         if actor is not None:
             self.emit("deliver", "actor:" + ip, id=did, src=src, dst=dst, data=data)
